@@ -100,3 +100,83 @@ func c16PatternDomains(c *Ctx) {
 		}
 	}
 }
+
+// A role-name matching function (keyMatch on g): names stored in the graph that also match a pattern used in user
+// position.  Along random runs of incremental link additions and removals — with the listings asked BEFORE every
+// change as well, so that anything they remember is there to go stale — the implicit roles listed for a name are
+// exactly the roles for which g() holds, and a request is allowed iff a listed permission grants it.
+// Implementation only.
+func c16PatternNames(c *Ctx) {
+	pool := [][]string{{"user:bob", "staff"}, {"user:*", "everyone"}, {"user:*", "auditors"}, {"everyone", "base"}, {"user:alice", "staff"}, {"staff", "base"}}
+	rules := [][]string{{"everyone", "data3", "read"}, {"auditors", "data2", "read"}, {"staff", "data1", "read"}, {"base", "data4", "read"}}
+	users := []string{"user:bob", "user:alice", "user:carol"}
+	roles := []string{"staff", "everyone", "auditors", "base"}
+	n := 60
+	if c.Thorough() {
+		n = 1500
+	}
+	for i := 0; i < n; i++ {
+		s := StartCaseQuiet(rbacSpec(false, false), CaseOpts{})
+		e := s.E
+		e.AddNamedMatchingFunc("g", "keyMatch", util.KeyMatch)
+		_, _ = e.AddPolicies(cloneRules(rules))
+		var hist []string
+		check := func() bool {
+			rm := e.GetRoleManager()
+			for _, u := range users {
+				listed, err := e.GetImplicitRolesForUser(u)
+				if err != nil {
+					continue
+				}
+				in := map[string]bool{}
+				for _, r := range listed {
+					in[r] = true
+				}
+				for _, r := range roles {
+					ok, _ := rm.HasLink(u, r)
+					if ok != in[r] {
+						c.Direct("with a role-name matching function GetImplicitRolesForUser and g() disagree", fmt.Sprintf("%v user=%s role=%s g()=%v listed=%v", hist, u, r, ok, listed))
+						return false
+					}
+				}
+				perms, err := e.GetImplicitPermissionsForUser(u)
+				if err != nil {
+					continue
+				}
+				for _, o := range []string{"data1", "data2", "data3", "data4"} {
+					dec, _ := e.Enforce(u, o, "read")
+					grant := false
+					for _, p := range perms {
+						if len(p) == 3 && p[1] == o && p[2] == "read" {
+							grant = true
+						}
+					}
+					if dec != grant {
+						c.Direct("with a role-name matching function Enforce and GetImplicitPermissionsForUser disagree", fmt.Sprintf("%v request=[%s %s read] Enforce=%v listed=%v", hist, u, o, dec, perms))
+						return false
+					}
+				}
+			}
+			return true
+		}
+		steps := 3 + c.Rng.Intn(8)
+		for st := 0; st < steps; st++ {
+			if !check() {
+				return
+			}
+			l := pool[c.Rng.Intn(len(pool))]
+			if has, _ := e.HasGroupingPolicy(l); has {
+				_, _ = e.RemoveGroupingPolicy(append([]string(nil), l...))
+				hist = append(hist, fmt.Sprintf("rm%v", l))
+			} else {
+				_, _ = e.AddGroupingPolicy(append([]string(nil), l...))
+				hist = append(hist, fmt.Sprintf("add%v", l))
+			}
+			c.Evals++
+		}
+		if !check() {
+			return
+		}
+		c.Count("pattern_name_runs", 1)
+	}
+}
